@@ -346,9 +346,9 @@ def linalg_inv(A):
     if OPTS.get("inv_outcomes", "both") == "regular":
         singular = False
     else:
-        sing = z3.Bool(f"singular!{c.fresh}")
+        reg = z3.Bool(f"regular!{c.fresh}")
         c.fresh += 1
-        singular = bool(SymBool(sing))
+        singular = not bool(SymBool(reg))      # the regular outcome is explored first
     if singular:
         ns = [c.newvar("null") for _ in range(n)]
         c.assume(z3.Sum([x * x for x in ns]) == 1)
